@@ -1,0 +1,11 @@
+//go:build !verif
+
+package goja
+
+// Verification hooks are compiled out unless the "verif" build tag is set.
+
+type verifVMExt struct{}
+
+func verifStep(*vm) {}
+
+func verifPoint(string, interface{}) {}
